@@ -465,21 +465,22 @@ impl<'a> JoinOutput<'a> {
 
         if is_try && (step_number) < max_step_count - 1 {
             if transpose {
+                //
+                // `__fail_index` is a position among the *active* branches of the step,
+                // so match arms are numbered by active position, not by branch index.
+                //
                 let (is_result_successful, result_vars_matcher): (Vec<_>, Vec<_>) = result_vars
                     .iter()
                     .enumerate()
-                    .filter_map(|(index, result_var)| {
-                        if self.is_branch_active_in_step(step_number, index) {
-                            (
-                                quote! { #result_var.as_ref().map(|_| true).unwrap_or(false) },
-                                quote! {
-                                    #index => #result_var.map(|_| unreachable!())
-                                },
-                            )
-                                .into()
-                        } else {
-                            None
-                        }
+                    .filter(|(index, _)| self.is_branch_active_in_step(step_number, *index))
+                    .enumerate()
+                    .map(|(active_index, (_, result_var))| {
+                        (
+                            quote! { #result_var.as_ref().map(|_| true).unwrap_or(false) },
+                            quote! {
+                                #active_index => #result_var.map(|_| unreachable!())
+                            },
+                        )
                     })
                     .unzip();
                 let value_name = construct_internal_value_name();
